@@ -18,7 +18,8 @@ RULE = ('all (old span, new span) pairs over a label universe of 6 with |old| <=
         'rendered as range / list / tuple / NumPy array / pandas Index / PeriodIndex / DatetimeIndex spans, x dtypes float/int/bool/str x '
         '{no fill, fill_value, per-variable fills, unknown fill keyword} x strict, on containers, solved / partly solved models and the '
         'pandas-based mixin with default arguments. non-trivial = distinct (span type, old, new, fill options) tuple')
-ASSUMPTIONS = ['fill values are compared after the cast to the variable\'s dtype (what "dtypes carry over" implies)',
+ASSUMPTIONS = ['a per-variable keyword given as None (or as a falsy value 0 / False / \'\') is still "given": fill_value does not apply to that variable, and None selects its dtype default',
+               'fill values are compared after the cast to the variable\'s dtype (what "dtypes carry over" implies)',
                'old spans have unique labels; repeated labels occur only in the new span']
 ANCHORS = [('fsic/core/containers.py', 'VectorContainer.reindex'), ('fsic/core/models.py', 'BaseModel.reindex'),
            ('fsic/extensions/model.py', 'PandasIndexFeaturesMixin.reindex')]
@@ -261,7 +262,8 @@ def one_case(ctx, cls_name, cls, kind, labels, make, old_idx, new_idx, opts):
 def option_sets(rng, k):
     base = [{}, {'fill_value': 7}, {'fill_value': 2.7}, {'fills': {'X': -1.5}}, {'fills': {'K': 9, 'S': 'zz'}}, {'fill_value': 0, 'fills': {'B': True}},
             {'fills': {'NOPE': 1}}, {'fills': {'NOPE': 1}, 'strict': True}, {'fills': {'NOPE': 1}, 'obj_strict': True}, {'fills': {'X': 3}, 'strict': True},
-            {'fills': {'NOPE': 1}, 'obj_strict': True, 'strict': False}, {'fills': {'status': 'Q', 'iterations': 5}}, {'fill_value': True}, {'fill_value': 'q'}]
+            {'fills': {'NOPE': 1}, 'obj_strict': True, 'strict': False}, {'fills': {'status': 'Q', 'iterations': 5}}, {'fill_value': True}, {'fill_value': 'q'},
+            {'fill_value': 7, 'fills': {'X': None, 'K': 0}}, {'fill_value': 3, 'fills': {'B': False, 'S': '', 'K': None}}]
     return base if k is None else rng.sample(base, k)
 
 
